@@ -7,6 +7,11 @@
 // Small schedules (<= 4 callers, <= 2 held downloads) are enumerated exhaustively, larger ones are sampled.
 // Oracles: (1) a phase checker written from the statement, (2) porcupine linearizability of the round history against
 // a nondeterministic cache model, (3) the race detector's log, (4) a state-based witness for waiters parked forever.
+//
+// Process layout: the parent spawns up to 16 copies of itself (C13_WORKER=k/n); worker k runs the cases at positions
+// k mod n of the case list one after the other and writes its statistics to a file which the parent merges (stats.go).
+// Goroutine dumps stop the world and cost time proportional to the number of goroutines of the process, so rounds
+// running side by side in ONE process would serialise on them. `--replay` runs the single case in the parent.
 package main
 
 import (
@@ -220,6 +225,7 @@ func main() {
 		for _, m := range mandatory {
 			run.Observed(m)
 		}
+		run.Sample(map[string]any{"replayed_case": rc})
 		run.Distinct("replay")
 		run.Distinct("replay2")
 		raceLog(run)
@@ -257,6 +263,10 @@ func main() {
 		w.cmd = exec.Command(self, string(run.Tier))
 		w.cmd.Env = append(os.Environ(), fmt.Sprintf("C13_WORKER=%d/%d", k, nw), "C13_WORKER_OUT="+w.out,
 			"VERIF_TIER="+string(run.Tier), fmt.Sprintf("VERIF_SEED=%d", run.Seed))
+		if g := os.Getenv("GORACE"); g != "" {
+			// race reports are read from the log; a worker that saw one must still exit 0 (the default would be 66)
+			w.cmd.Env = append(w.cmd.Env, "GORACE="+g+" exitcode=0")
+		}
 		w.cmd.Stdout, w.cmd.Stderr = lf, lf
 		if err := w.cmd.Start(); err != nil {
 			fmt.Printf("INCONCLUSIVE property=C13 cannot start worker: %v\n", err)
